@@ -28,6 +28,8 @@ def pre_encoder_mapping(fmt: str, T, D, value):
     from mashumaro.codecs import BasicEncoder
     from mashumaro.codecs import json as cj, msgpack as cm, orjson as co, toml as ct, yaml as cy
     ident = lambda x: x  # noqa: E731
+    if value is None:
+        value = T()
     kw = {} if D is None else {"default_dialect": D}
     if fmt == "FBasic":
         return BasicEncoder(T, **kw).encode(value)
@@ -145,10 +147,12 @@ def kernel_tables_validation(ctx: vlib.Ctx):
 # (M) which serializer is in force at the default-dialect level (choice model)
 # ---------------------------------------------------------------------------
 
-def strategy_choice_corr(ctx: vlib.Ctx):
+def strategy_choice_corr(ctx: vlib.Ctx, direction: str = "serialize"):
     from mashumaro.codecs._builder import CodecCodeBuilder
     from mashumaro.core.meta.types.common import FieldContext, ValueSpec
     from mashumaro.core.meta.types.pack import get_overridden_serialization_method
+    from mashumaro.core.meta.types.unpack import get_overridden_deserialization_method
+    getter = get_overridden_serialization_method if direction == "serialize" else get_overridden_deserialization_method
     from mashumaro.dialect import Dialect
     from mashumaro.helper import pass_through
     from mashumaro.mixins.msgpack import MessagePackDialect
@@ -164,6 +168,23 @@ def strategy_choice_corr(ctx: vlib.Ctx):
         def deserialize(self, v):
             return v
 
+    # callables of the format dialects carry the numbers kernel K13C gave them
+    import re as _re
+    known: dict[int, int] = {}
+    try:
+        k13c = _plugin("k13c_codec_plan.py")
+        _o, strats = k13c.dialect_tables()
+        real = {"OrjsonDialect": OrjsonDialect, "MessagePackDialect": MessagePackDialect, "TOMLDialect": TOMLDialect}
+        tname = {v: kk for kk, v in k13c.TYPE_IDS.items()}
+        for cname, ents in strats:
+            for txt in ents:
+                tid = int(txt[1:].split(",")[0])
+                rv = next(v for t, v in real[cname].serialization_strategy.items() if t.__name__ == tname[tid])
+                if isinstance(rv, dict):
+                    for dname, n in _re.findall(r'\("(serialize|deserialize)", (\d+)\)', txt):
+                        known[id(rv[dname])] = int(n)
+    except Exception:  # noqa: BLE001  (K13C's own validation reports a broken table)
+        known = {}
     r = ctx.rng
     types_ = [t for t in TYPE_IDS if t not in (int, str)] + [int]
     cases, descr = [], []
@@ -176,6 +197,8 @@ def strategy_choice_corr(ctx: vlib.Ctx):
         def num(o):
             if o is pass_through:
                 return 0
+            if id(o) in known:
+                return known[id(o)]
             if id(o) not in ids:
                 ids[id(o)] = 200 + len(ids)
                 keep.append(o)
@@ -202,7 +225,7 @@ def strategy_choice_corr(ctx: vlib.Ctx):
         b = CodecCodeBuilder.new(type_args=(), default_dialect=dd)
         b.reset()
         spec = ValueSpec(type=ty, expression="value", builder=b, field_ctx=FieldContext(name="", metadata={}))
-        got = get_overridden_serialization_method(spec)
+        got = getter(spec)
 
         def enc_usr(u):
             if u is None:
@@ -228,11 +251,12 @@ def strategy_choice_corr(ctx: vlib.Ctx):
         cases.append(f"({fmt}, {eu}, {TYPE_IDS[ty]}, {e})")
         descr.append(f"{fmt} {eu} type {ty.__name__} -> {e}")
         ctx.count(("choice", fmt, eu, ty.__name__))
-    okf = ("fun c => let '(f, usr, ty, e) := c in let g := effective (sm_get (codec_strategies f usr) ty) \"serialize\" in "
+    okf = ("fun c => let '(f, usr, ty, e) := c in let g := effective (sm_get (codec_strategies f usr) ty) \"" + direction + "\" in "
            "eff_eqb g e || (match g, e with EFun 0, EStrat 0 => true | _, _ => false end)")
-    bad, log = vlib.coq_bad_idx("c13_choice", "OptProj DialectMerge DialectDoc", "From VerifGen Require Import K13C.",
+    bad, log = vlib.coq_bad_idx("c13_choice_" + direction, "OptProj DialectMerge DialectDoc", "From VerifGen Require Import K13C.",
                                 "Open Scope nat_scope.\n", cases, okf, "choice_case", shard=500, needs=["theories/DialectDoc.vo"])
-    name = "serializer-choice-model-vs-get_overridden_serialization_method"
+    name = ("serializer-choice-model-vs-get_overridden_serialization_method" if direction == "serialize"
+            else "deserializer-choice-model-vs-get_overridden_deserialization_method")
     if bad is None:
         ctx.correspondence(name, len(cases), -1, log)
         ctx.not_shown("correspondence " + name, log)
@@ -409,8 +433,7 @@ def document_corr(ctx: vlib.Ctx):
                         _ann, dflt, tid, nullable = KINDS[kind]
                         d = "DNo" if dflt is None else f"(DVal {enc(eval(dflt))})"
                         al = "None" if alias is None else f"(Some {vlib.coq_str(alias)})"
-                        ds.append("{| d_plan := {| p_name := " + vlib.coq_str(name) + f"; p_alias := {al}; p_tynull := {'true' if nullable else 'false'}; "
-                                  f"p_trivial := false; p_default := {d}; p_omit := false |}}; d_ty := {tid} |}}")
+                        ds.append("{| d_plan := mk_plan " + vlib.coq_str(name) + f" {al} {'true' if nullable else 'false'} {d}; d_ty := {tid} |}}")
                     def enc_usr(u):
                         if u is None:
                             return "None"
@@ -448,7 +471,184 @@ def document_corr(ctx: vlib.Ctx):
     ctx.sample({"document_case": descr[0][:400]} if descr else {})
 
 
+def decoder_accepts(fmt: str, T, D):
+    """(accepts {'nt': {'x': 1, 'y': 2}}, accepts {'nt': [1, 2]}) for the real Decoder of the format"""
+    import json as _json
+    import msgpack
+    import orjson
+    import tomli_w
+    import yaml
+    from mashumaro.codecs import BasicDecoder
+    from mashumaro.codecs.json import JSONDecoder
+    from mashumaro.codecs.msgpack import MessagePackDecoder
+    from mashumaro.codecs.orjson import ORJSONDecoder
+    from mashumaro.codecs.toml import TOMLDecoder
+    from mashumaro.codecs.yaml import YAMLDecoder
+    table = {"FBasic": (BasicDecoder, lambda d: d), "FJson": (JSONDecoder, _json.dumps), "FYaml": (YAMLDecoder, yaml.safe_dump),
+             "FOrjson": (ORJSONDecoder, orjson.dumps), "FMsgpack": (MessagePackDecoder, lambda d: msgpack.packb(d, use_bin_type=True)),
+             "FToml": (TOMLDecoder, tomli_w.dumps)}
+    cls, render = table[fmt]
+    dec = cls(T) if D is None else cls(T, default_dialect=D)
+    out = []
+    for doc in ({"nt": {"x": 1, "y": 2}}, {"nt": [1, 2]}):
+        try:
+            r = dec.decode(render(doc))
+            out.append(tuple(r.nt) == (1, 2))
+        except Exception:  # noqa: BLE001
+            out.append(False)
+    return tuple(out)
+
+
+from typing import NamedTuple as _NamedTuple
+
+
+class NTm(_NamedTuple):          # module-level: generated code refers to it as <module>.NTm
+    x: int
+    y: int
+
+
+_NT = NTm
+
+
+def NTHolder(cns: dict):
+    """a fresh holder type + instance factory: returns the TYPE; pre_encoder_mapping(value=None) builds the instance"""
+    global _NT
+    from dataclasses import dataclass, field
+    from typing import NamedTuple
+    from mashumaro.config import BaseConfig
+    T = dataclass(type("H", (), {"__annotations__": {"nt": _NT}, "nt": _NT(1, 2), "Config": type("Config", (BaseConfig,), dict(cns))}))
+    return T
+
+
+def no_copy_corr(ctx: vlib.Ctx):
+    """codec_nc (DialectDecode.v) vs get_dialect_or_config_option("no_copy_collections", ()) of the real builder."""
+    from dataclasses import dataclass
+    from mashumaro.core.meta.code.builder import CodeBuilder
+    from mashumaro.dialect import Dialect
+    from mashumaro.mixins.msgpack import MessagePackDialect
+    from mashumaro.mixins.orjson import OrjsonDialect
+    from mashumaro.mixins.toml import TOMLDialect
+    fmt_dialect = {"FOrjson": OrjsonDialect, "FMsgpack": MessagePackDialect, "FToml": TOMLDialect}
+    ids = {list: 1, dict: 2}
+    cases, descr = [], []
+    for fmt in FMTS:
+        for dmode in ("none", None, (), (list,), (dict,), (list, dict)):
+            D = None if dmode == "none" else type("D", (Dialect,), {} if dmode is None else {"no_copy_collections": dmode})
+            dd = (fmt_dialect[fmt].merge(D) if D is not None else fmt_dialect[fmt]) if fmt in fmt_dialect else D
+            T = dataclass(type("T", (), {"__annotations__": {"x": int}, "x": 1}))
+            got = tuple(CodeBuilder(T, default_dialect=dd).get_dialect_or_config_option("no_copy_collections", ()))
+            Dn = "None" if dmode == "none" else ("(Some None)" if dmode is None else "(Some (Some [" + "; ".join(str(ids[t]) for t in dmode) + "]))")
+            cases.append(f"({fmt}, {Dn}, [" + "; ".join(str(ids[t]) for t in got) + "])")
+            descr.append((fmt, str(dmode), str(got)))
+            ctx.count(("nc", fmt, str(dmode)))
+    bad, log = vlib.coq_bad_idx("c13_nc", "OptProj DialectMerge DialectDoc DialectDecode", "From VerifGen Require Import K13C.",
+                                "Open Scope nat_scope.\n", cases, "nc_case_ok", "nc_case", needs=["theories/DialectDecode.vo"])
+    name = "no_copy_collections-model-vs-builder-resolution"
+    if bad is None:
+        ctx.correspondence(name, len(cases), -1, log)
+        ctx.not_shown("correspondence " + name, log)
+    else:
+        ctx.correspondence(name, len(cases), len(bad), str([descr[i] for i in bad[:4]]))
+        if bad:
+            ctx.not_shown("correspondence " + name, str([descr[i] for i in bad[:4]]))
+
+
+def namedtuple_mode_corr(ctx: vlib.Ctx):
+    """nd_in_force (DialectDecode.v) vs the option the real builder resolves, exhaustively:
+    6 formats x user dialect {none, unset, True, False} x Config.dialect {unset, True, False} x Config {unset, True, False}."""
+    from dataclasses import dataclass
+    from mashumaro.config import BaseConfig
+    from mashumaro.core.meta.code.builder import CodeBuilder
+    from mashumaro.dialect import Dialect
+    from mashumaro.mixins.msgpack import MessagePackDialect
+    from mashumaro.mixins.orjson import OrjsonDialect
+    from mashumaro.mixins.toml import TOMLDialect
+    fmt_dialect = {"FOrjson": OrjsonDialect, "FMsgpack": MessagePackDialect, "FToml": TOMLDialect}
+    tri_name = {None: "U", True: "T", False: "F"}
+    cases, descr = [], []
+    for fmt in FMTS:
+        for dmode in ("none", None, True, False):
+            for cfgd in (None, True, False):
+                for cfg in (None, True, False):
+                    D = None if dmode == "none" else type("D", (Dialect,), {} if dmode is None else {"namedtuple_as_dict": dmode})
+                    dd = (fmt_dialect[fmt].merge(D) if D is not None else fmt_dialect[fmt]) if fmt in fmt_dialect else D
+                    cns = {}
+                    if cfg is not None:
+                        cns["namedtuple_as_dict"] = cfg
+                    if cfgd is not None:
+                        cns["dialect"] = type("CD", (Dialect,), {"namedtuple_as_dict": cfgd})
+                    T = dataclass(type("T", (), {"__annotations__": {"x": int}, "x": 1, "Config": type("Config", (BaseConfig,), cns)}))
+                    got = bool(CodeBuilder(T, default_dialect=dd).get_dialect_or_config_option("namedtuple_as_dict", False))
+                    # ... and what the real Encoder of the format then does with a named tuple (end to end, pack side)
+                    try:
+                        out = pre_encoder_mapping(fmt, NTHolder(cns), D, None)
+                        beh = isinstance(out.get("nt"), dict)
+                    except Exception as e:  # noqa: BLE001
+                        beh = f"{type(e).__name__}"
+                    # ... and the real Decoder: a dict document is accepted iff as_dict, a list document iff not
+                    dec = decoder_accepts(fmt, NTHolder(cns), D)
+                    if dec != (got, not got):
+                        ctx.fail(f"{fmt} decoder with default_dialect namedtuple_as_dict={dmode}, Config.dialect={cfgd}, Config={cfg}: accepts "
+                                 f"(dict document, list document) = {dec}, the builder resolves as_dict={got}",
+                                 {"entry": "ntmode", "format": fmt, "dialect": str(dmode), "config_dialect": cfgd, "config": cfg,
+                                  "observed": str(dec), "expected": got}, {"kind": "namedtuple-mode-not-resolved", "format": fmt, "side": "decode"})
+                    if beh != got:
+                        ctx.fail(f"{fmt} encoder with default_dialect namedtuple_as_dict={dmode}, Config.dialect={cfgd}, Config={cfg}: "
+                                 f"named tuple rendered as {'dict' if beh is True else 'list' if beh is False else beh}, the builder resolves as_dict={got}",
+                                 {"entry": "ntmode", "format": fmt, "dialect": str(dmode), "config_dialect": cfgd, "config": cfg,
+                                  "observed": str(beh), "expected": got}, {"kind": "namedtuple-mode-not-resolved", "format": fmt})
+                    Dn = "None" if dmode == "none" else f"(Some {tri_name[dmode]})"
+                    cases.append(f"({fmt}, {Dn}, {tri_name[cfgd]}, {tri_name[cfg]}, {'true' if got else 'false'})")
+                    descr.append((fmt, dmode, cfgd, cfg, got))
+                    ctx.count(("nd", fmt, str(dmode), cfgd, cfg))
+    bad, log = vlib.coq_bad_idx("c13_nd", "OptProj DialectMerge DialectDoc DialectDecode", "From VerifGen Require Import K13C.",
+                                "", cases, "nd_case_ok", "nd_case", shard=500, needs=["theories/DialectDecode.vo"])
+    name = "namedtuple-mode-model-vs-builder-resolution"
+    if bad is None:
+        ctx.correspondence(name, len(cases), -1, log)
+        ctx.not_shown("correspondence " + name, log)
+    else:
+        ctx.correspondence(name, len(cases), len(bad), str([descr[i] for i in bad[:4]]))
+        if bad:
+            ctx.not_shown("correspondence " + name, str([descr[i] for i in bad[:4]]))
+
+
 def run_all(ctx: vlib.Ctx):
     kernel_tables_validation(ctx)
     strategy_choice_corr(ctx)
+    strategy_choice_corr(ctx, "deserialize")
+    namedtuple_mode_corr(ctx)
+    no_copy_corr(ctx)
     document_corr(ctx)
+
+
+def ntmode_replay(rep: dict) -> int:
+    """re-run one combination of the named-tuple sweep"""
+    from mashumaro.core.meta.code.builder import CodeBuilder
+    from mashumaro.dialect import Dialect
+    from mashumaro.mixins.msgpack import MessagePackDialect
+    from mashumaro.mixins.orjson import OrjsonDialect
+    from mashumaro.mixins.toml import TOMLDialect
+    fmt_dialect = {"FOrjson": OrjsonDialect, "FMsgpack": MessagePackDialect, "FToml": TOMLDialect}
+    fmt, cfgd, cfg = rep["format"], rep["config_dialect"], rep["config"]
+    dmode = {"none": "none", "None": None, "True": True, "False": False}[rep["dialect"]]
+    D = None if dmode == "none" else type("D", (Dialect,), {} if dmode is None else {"namedtuple_as_dict": dmode})
+    dd = (fmt_dialect[fmt].merge(D) if D is not None else fmt_dialect[fmt]) if fmt in fmt_dialect else D
+    cns = {}
+    if cfg is not None:
+        cns["namedtuple_as_dict"] = cfg
+    if cfgd is not None:
+        cns["dialect"] = type("CD", (Dialect,), {"namedtuple_as_dict": cfgd})
+    T = NTHolder(cns)
+    got = bool(CodeBuilder(T, default_dialect=dd).get_dialect_or_config_option("namedtuple_as_dict", False))
+    try:
+        beh = isinstance(pre_encoder_mapping(fmt, NTHolder(cns), D, None).get("nt"), dict)
+    except Exception as e:  # noqa: BLE001
+        beh = type(e).__name__
+    dec = decoder_accepts(fmt, NTHolder(cns), D)
+    print("resolved as_dict", got, "rendered as dict", beh, "decoder accepts (dict, list)", dec)
+    if beh != got or dec != (got, not got):
+        print("REPRODUCED")
+        return 1
+    print("not reproduced")
+    return 0
